@@ -269,7 +269,8 @@ CHECKS = {
     'C03': ('exploration',
             'Hypothesis-generated byte strings (raw, line grammar, MIME '
             'grammar, tiled large) with round-trip oracles at MIME-parser and '
-            'wire level',
+            'wire level; plus coverage-guided fuzzing (atheris/libFuzzer) of '
+            'the same round-trip oracles from a MIME seed corpus',
             'mime tier: MessageContent.parse(b) must serialise back to b, '
             'header+body must equal the part and every nested part must be a '
             'slice of its parent body. wire tier (dict and maildir): APPEND b, '
@@ -285,7 +286,9 @@ CHECKS = {
     'C07': ('exploration',
             'Hypothesis-generated programs that plant adversarial data and '
             'read it back; oracle = independent strict RFC 3501 response '
-            'parser over the whole byte stream',
+            'parser over the whole byte stream; plus coverage-guided fuzzing '
+            '(atheris/libFuzzer) of the planted message/names/keywords '
+            'against the same parser oracle',
             'Each case plants Unicode mailbox names, a message from the '
             'header/MIME grammars, keywords, a tag over all legal tag bytes, ID '
             'parameters and header-field names in every spelling, then runs '
@@ -305,7 +308,10 @@ CHECKS = {
             'grammar-based + mutational + raw-byte fuzzing with Hypothesis at '
             'parser and wire level, generated messages read back with every '
             'FETCH attribute / SEARCH key, CPU-budget hang detector, failures '
-            'bucketed by (exception type, innermost pymap frame)',
+            'bucketed by (exception type, innermost pymap frame); plus '
+            'coverage-guided byte-level fuzzing (atheris/libFuzzer) of the '
+            'same parse / wire / message / sieve targets with the oracle '
+            'inside the target',
             'Command lines from a hole-filled grammar of every IMAP command, '
             'mutations of valid lines, raw bytes and near-64KiB lines are fed '
             '(a) to Commands.parse exactly as the connection does and (b) '
